@@ -2,7 +2,7 @@
    Model: Sched.v (farm.dispatch, _put, rerunid, Hand._reg/_process/connectionLost,
    notify_all).  Quantification: every engine c, every state s / every history es. *)
 From Coq Require Import List Arith ZArith Bool Permutation.
-From DV Require Import Model.Sched Proofs.SchedLib Proofs.SchedC11.
+From DV Require Import Model.Sched Proofs.SchedLib Proofs.SchedC11 Proofs.SchedSort.
 Import ListNotations.
 
 (* a task message is written only by a dispatch tick, only while active, only to a
@@ -120,9 +120,8 @@ Print Assumptions C11_sent_well_formed.
    the pipeline out of `running`; its closing notify_all() sends the abort
    response to every hand of the (sorted) idle list, empties the list, sends no
    task; the pipeline is inactive afterwards, so later ticks send nothing
-   (C11_inactive).  PARTIAL: that the sorted idle list contains every idle
-   worker (workers_sort is a permutation) is not proved here; the idle list
-   itself is proved empty afterwards. ---- *)
+   (C11_inactive); C11_archive_tick_all: with one registration per connection
+   that is EVERY idle worker (workers_sort is a permutation, Proofs/SchedSort.v). ---- *)
 Theorem C11_archive_tick : forall c s, In OArchive (snd (dispatch c s)) ->
   active s = true /\
   workers (fst (dispatch c s)) = [] /\ active (fst (dispatch c s)) = false /\
@@ -141,3 +140,13 @@ Example C11_nonvacuous :
   nth 3 (snd r) [] = [ONext 1%Z; OTask 1 {| m_job := 0; m_tgt := 1; m_rid := 1%Z; m_fac := Task |}] /\
   nth 1 (snd r) [] = [OAbort 2].
 Proof. vm_compute. split; reflexivity. Qed.
+
+Theorem C11_archive_tick_all : forall c s, NoDup (map fst (workers s)) ->
+  In OArchive (snd (dispatch c s)) ->
+  forall w, In w (map fst (workers s)) -> In (OAbort w) (snd (dispatch c s)).
+Proof.
+  intros c s N HA w Hw. destruct (archive_tick c s HA) as (_ & _ & _ & AB & _). apply AB.
+  eapply Permutation.Permutation_in; [|exact Hw].
+  apply Permutation.Permutation_map. apply Permutation.Permutation_sym. apply workers_sort_perm. exact N.
+Qed.
+Print Assumptions C11_archive_tick_all.
